@@ -22,3 +22,21 @@ Theorem C02_regular : forall r doc,
     /\ sm_contents m = odefault [] (r_sources_content r).
 Proof. exact C02Regular.C02_regular. Qed.
 Print Assumptions C02_regular.
+
+(* kind dispatch: a document with `sections` decodes as an index map (or not at all), else one with `x_facebook_sources`
+   as a Hermes map, everything else as a regular map -- whatever other keys the document holds *)
+Theorem C02_dispatch : forall f r,
+  match decode_common (S f) r with
+  | Ok (DIndex _ _) => r_sections r <> None
+  | Ok (DHermes _) => r_sections r = None /\ r_fb_sources r <> None
+  | Ok (DRegular _) => r_sections r = None /\ r_fb_sources r = None
+  | Err _ | Panic _ => True
+  end.
+Proof.
+  intros f r. cbn [decode_common]. destruct (r_sections r) as [secs|].
+  - match goal with |- context [bind ?x _] => destruct x end; cbn [bind]; try exact I. discriminate.
+  - destruct (r_fb_sources r) as [fb|].
+    + destruct (decode_hermes r); cbn [bind]; try exact I. split; [reflexivity|discriminate].
+    + destruct (decode_regular r); cbn [bind]; try exact I. split; reflexivity.
+Qed.
+Print Assumptions C02_dispatch.
